@@ -91,6 +91,10 @@ class Module:
         # Set to `None` initially to indicate that it hasn't been set yet.
         self._pre_flattening_io: Optional[Dict[str, "Connectable"]] = None
 
+        # The exception raised by an elaboration pass which failed in this module, if any.
+        # Such a module is neither its designed nor its elaborated self, and is refused by elaboration and export.
+        self._elab_failure: Optional[Exception] = None
+
         # The source `GeneratorCall`, for generated Modules.
         self._generated_by: Optional["GeneratorCall"] = None
 
